@@ -5,7 +5,7 @@ SPEC = {
     "harness": "hx-chain",
     "harness_args": ["C01"],
     "translators": [],
-    "level_text": "Proof (Coq): for every finite block set (any tree shape, any per-block difficulty, invalid blocks anywhere) and every two delivery schedules of it (any permutation, duplicates, children before parents held in the orphan pool), the model of the fork choice (accumulated difficulty, strict '>' comparison, a branch becomes canonical only if all of it verifies) and of the orphan broker ends with the same total difficulty and the same tip unless two fully valid chains tie (c01_order_independent); the tip is always the head of a fully valid chain of maximal accumulated difficulty among the processed ones and every delivered block whose ancestry was delivered is processed (c01_heaviest); the tip moves only to strictly more work (c01_strict_switch); any parent-first processing order gives the same records (c01_processing_order_independent). Tie: real nodes (chain services with their insert / preload / verify threads, dummy PoW, full verification) receive random trees under random asynchronous schedules; at quiescence after every delivery the tip, total difficulty and orphan-pool size are compared with the property recomputed from the tree and with the model (vm_compute); at the end of every schedule every processed block's BlockExt record (accumulated difficulty; a verified flag, when set, agrees with the validity of its chain) and the number->hash index (exactly the tip's path) are checked. A probe in a thread of its own lets two orphans wait across the chain service's 60 s orphan clean-up tick and then delivers their parents. Verify callbacks the chain service drops without calling are resolved from the store (BlockExt present / status invalid).",
+    "level_text": "Proof (Coq): for every finite block set (any tree shape, any per-block difficulty, invalid blocks anywhere) and every two delivery schedules of it (any permutation, duplicates, children before parents held in the orphan pool), the model of the fork choice (accumulated difficulty, strict '>' comparison, a branch becomes canonical only if all of it verifies) and of the orphan broker ends with the same total difficulty and the same tip unless two fully valid chains tie (c01_order_independent); the tip is always the head of a fully valid chain of maximal accumulated difficulty among the processed ones and every delivered block whose ancestry was delivered is processed (c01_heaviest); the tip moves only to strictly more work (c01_strict_switch); any parent-first processing order gives the same records (c01_processing_order_independent). Tie: real nodes (chain services with their insert / preload / verify threads, dummy PoW, full verification) receive random trees under random asynchronous schedules; at quiescence after every delivery the tip, total difficulty and orphan-pool size are compared with the property recomputed from the tree and with the model (vm_compute); at the end of every schedule every processed block's BlockExt record (accumulated difficulty; a verified flag, when set, agrees with the validity of its chain) and the number->hash index (exactly the tip's path) are checked. A probe in a thread of its own lets two orphans wait across the chain service's 60 s orphan clean-up tick and then delivers their parents. Verify callbacks the chain service drops without calling are resolved from the store (BlockExt present / status invalid). The tree/schedule stream stops after six unsigned violations (a stalled schedule costs a minute of waiting).",
     "level_note": "Trusted: Coq kernel; hand-written model Chain/ForkChoice.v at the granularity one verify-thread step = one [process] (thread interleavings appear as the processing order, constrained only to be parent-first, which the FIFO channels and the orphan broker guarantee); block validity is an input bit of the model (decided by the real verifiers in the harness). Not shown: preemption inside a step, RocksDB/DashMap linearizability, the orphan retention horizon (expiry is wall-clock driven and not exercised), the status-map/BlockExt bookkeeping of rejected blocks beyond what the tip and orphan observations reveal.",
     "trusted_base": COMMON_TB + [
         "hand-written model coq/Chain/ForkChoice.v of chain/src/verify.rs (verify_block fork choice) and chain/src/orphan_broker.rs (delivery, release of orphans)",
